@@ -3,6 +3,7 @@ package core
 import (
 	"errors"
 	"fmt"
+	"sort"
 
 	jschemaLib "github.com/jsightapi/jsight-schema-go-library"
 	jerrors "github.com/jsightapi/jsight-schema-go-library/errors"
@@ -90,8 +91,14 @@ func (core *JApiCore) compileUserTypeWithAllDependencies(name string) error {
 	dd := core.catalog.GetRawUserTypes()
 
 	// Add rules before we try to do something with the type.
-	for n, r := range core.rules {
-		if err := currUT.AddRule(n, r); err != nil {
+	// Sorted, so that the same document always gets the same diagnostic.
+	ruleNames := make([]string, 0, len(core.rules))
+	for n := range core.rules {
+		ruleNames = append(ruleNames, n)
+	}
+	sort.Strings(ruleNames)
+	for _, n := range ruleNames {
+		if err := currUT.AddRule(n, core.rules[n]); err != nil {
 			return jschemaToJAPIError(err, dd.GetValue(n))
 		}
 	}
